@@ -102,6 +102,8 @@ def main():
         f = os.path.join(wd, 'm%d.c' % k); open(f, 'w', encoding='latin-1', errors='replace').write(text); jobs.append((f, text, 'mutant'))
     # benign edits of accepted seeds
     for k, base in enumerate([b for b in seeds if 'int main' in b and '#define F' not in b][:12]):
+        f0 = os.path.join(wd, 'b%d_base.c' % k); open(f0, 'w').write(base)
+        if cc1(f0)[0] != 0: continue          # only programs chibicc accepts are "accepted seeds"
         t = base
         for a, b in rng.sample(BENIGN, 3): t = t.replace(a, b, rng.randint(1, 5))
         f = os.path.join(wd, 'b%d.c' % k); open(f, 'w').write(t); jobs.append((f, t, 'benign:' + str(k)))
